@@ -772,6 +772,64 @@ Proof.
   rewrite Hm. apply IH. intros. apply H. right. assumption.
 Qed.
 
+(* the two inner loops of check_attr_type for an array attribute, named *)
+Definition inst_chk (E : env) (p1 : prim) (jctx : ctx) (value : pv) : chk :=
+  match value with
+  | PVStruct fs =>
+    match struct_of_prim E p1 with
+    | None => fail1 KUnknownStruct jctx
+    | Some sd' =>
+      band (check_missing jctx (sd_attrs sd') fs)
+        ((fix go (l2 : list (name * pv)) : chk :=
+            match l2 with
+            | [] => ok_true
+            | (id', v') :: r2 =>
+              band (if has_key id' (sd_attrs sd') then check_attr_type E jctx jctx sd' id' v'
+                    else fail1 KUnknownAttrInLit jctx) (go r2)
+            end) fs)
+    end
+  | _ => ok_true
+  end.
+
+Fixpoint elems_f (E : env) (p1 : prim) (jctx : ctx) (k : chk) (l : list pv) : chk :=
+  match l with
+  | [] => k
+  | value :: r =>
+    andthen (inst_chk E p1 jctx value)
+      (if check_type_of_value value (Some p1) p1 then elems_f E p1 jctx k r else fail1 KArrayElem jctx)
+  end.
+
+Lemma check_attr_type_array_eq : forall E jctx ictx def id p1 len vs,
+  assoc id (sd_attrs def) = Some (TArray p1 len) ->
+  check_attr_type E jctx ictx def id (PVArray vs) =
+  match elems_f E p1 jctx (if array_length_correct (length vs) len then ok_true else fail1 KArrayLength jctx) vs with
+  | Ok (true, es) => Ok (true, es)
+  | Ok (false, es) => Ok (false, es ++ [(KWrongTypeArray, ictx)])
+  | Fuel => Fuel | Exn k => Exn k | Unsupported => Unsupported
+  end.
+Proof.
+  intros E jctx ictx def id p1 len vs Ha. cbn [check_attr_type]. rewrite Ha.
+  set (K := if array_length_correct (length vs) len then ok_true else fail1 KArrayLength jctx).
+  match goal with
+  | |- match ?F vs with _ => _ end = _ =>
+    assert (Heq : forall l, F l = elems_f E p1 jctx K l)
+  end.
+  { induction l as [|value r IH]; [reflexivity|]. cbn [elems_f]. rewrite <- IH. reflexivity. }
+  rewrite Heq. reflexivity.
+Qed.
+
+Lemma andthen_ok_true_l : forall b, andthen ok_true b = b.
+Proof. intro b. unfold andthen, ok_true. destruct b as [[y e2]| |k|]; reflexivity. Qed.
+
+Lemma elems_f_ok : forall E p1 jctx k vs,
+  (forall value, In value vs -> inst_chk E p1 jctx value = ok_true /\ check_type_of_value value (Some p1) p1 = true) ->
+  elems_f E p1 jctx k vs = k.
+Proof.
+  intros E p1 jctx k vs. induction vs as [|value r IH]; intro H; [reflexivity|]. cbn [elems_f].
+  destruct (H value (or_introl eq_refl)) as [H1 H2]. rewrite H1, H2, andthen_ok_true_l.
+  apply IH. intros. apply H. right. assumption.
+Qed.
+
 Section WfLiterals.
   Variable p : program.
   Variable HWF : WF p.
@@ -845,64 +903,35 @@ Section WfLiterals.
       { clear - Hall. induction es as [|e r IH]; [reflexivity|]. inversion Hall; subst. cbn [filter].
         destruct e; cbn [is_jarr negb]; try (rewrite IH by assumption; reflexivity).
         destruct p1; destruct H1. }
-      rewrite Hfilter. cbn [check_attr_type]. rewrite Ha.
+      rewrite Hfilter. rewrite (check_attr_type_array_eq _ _ _ _ _ _ _ _ Ha).
       assert (Hlenok : array_length_correct (length (map parse_json es)) len = true).
       { rewrite map_length. destruct len as [|n|v]; try reflexivity. cbn [type_wf] in Hty. destruct Hty as [_ Hn].
         subst n. cbn [array_length_correct]. rewrite Nat.eqb_refl.
         destruct (length es); [lia | reflexivity]. }
-      assert (Helems :
-        (fix elems (l : list pv) : chk :=
-           match l with
-           | [] => if array_length_correct (length (map parse_json es)) len then ok_true else fail1 KArrayLength jctx
-           | value :: r =>
-             andthen
-               match value with
-               | PVStruct fs =>
-                 match struct_of_prim E p1 with
-                 | None => fail1 KUnknownStruct jctx
-                 | Some sd' =>
-                   band (check_missing jctx (sd_attrs sd') fs)
-                     ((fix go (l2 : list (name * pv)) : chk :=
-                         match l2 with
-                         | [] => ok_true
-                         | (id', v') :: r2 =>
-                           band (if has_key id' (sd_attrs sd') then check_attr_type E jctx jctx sd' id' v'
-                                 else fail1 KUnknownAttrInLit jctx) (go r2)
-                         end) fs)
-                 end
-               | _ => ok_true
-               end
-               (if check_type_of_value value (Some p1) p1 then elems r else fail1 KArrayElem jctx)
-           end) (map parse_json es) = ok_true).
-      { rewrite Hlenok. clear Hlenok Hfilter Hlen Hgo.
-        induction es as [|e r IH]; [reflexivity|]. inversion Hall; subst. inversion H; subst.
-        cbn [map]. destruct e; try (destruct p1; destruct H2; fail).
-        - destruct p1; try (destruct H2; fail). cbn [parse_json check_type_of_value andthen ok_true].
-          rewrite IH by assumption. reflexivity.
-        - destruct p1; try (destruct H2; fail). cbn [parse_json check_type_of_value andthen ok_true].
-          rewrite IH by assumption. reflexivity.
-        - destruct p1; try (destruct H2; fail). cbn [parse_json check_type_of_value andthen ok_true].
-          rewrite IH by assumption. reflexivity.
-        - (* struct element *)
-          destruct p1 as [| | |s1]; try (destruct H2; fail). cbn [json_wt] in H2.
-          destruct H2 as (sdf1 & Hf & Hnd & Hpres & Hgo1).
-          destruct (wf_models p HWF _ _ Hf) as [sd1 Hm].
-          pose proof (models_struct_of_prim p _ _ Hm) as Hsp.
-          destruct Hm as (s' & sdf' & Heq & Hf' & _ & Hattrs & _). inversion Heq; subst s'.
-          rewrite Hf in Hf'. inversion Hf'; subst sdf'.
-          rewrite parse_json_obj. rewrite dict_of_nodup by (rewrite map_map; cbn [fst]; exact Hnd).
-          rewrite Hsp.
-          destruct H4 as [_ HQ].
-          rewrite check_missing_ok.
-          2:{ intros a Hin. rewrite Hattrs in Hin. rewrite Forall_forall in Hpres. rewrite map_map. cbn [fst].
-              apply Hpres. exact Hin. }
+      rewrite Hlenok. rewrite elems_f_ok; [reflexivity|].
+      intros value Hin. apply in_map_iff in Hin. destruct Hin as (e & <- & Hin).
+      rewrite Forall_forall in Hall, H. specialize (Hall e Hin). specialize (H e Hin).
+      destruct e; try (destruct p1; destruct Hall; fail).
+      + destruct p1; try (destruct Hall; fail). split; reflexivity.
+      + destruct p1; try (destruct Hall; fail). split; reflexivity.
+      + destruct p1; try (destruct Hall; fail). split; reflexivity.
+      + (* struct element *)
+        destruct p1 as [| | |s1]; try (destruct Hall; fail). cbn [json_wt] in Hall.
+        destruct Hall as (sdf1 & Hf & Hnd & Hpres & Hgo1).
+        destruct (wf_models p HWF _ _ Hf) as [sd1 Hm].
+        pose proof (models_struct_of_prim p _ _ Hm) as Hsp.
+        destruct Hm as (s' & sdf' & Heq & Hf' & _ & Hattrs & _). inversion Heq; subst s'.
+        rewrite Hf in Hf'. inversion Hf'; subst sdf'.
+        rewrite parse_json_obj. rewrite dict_of_nodup by (rewrite map_map; cbn [fst]; exact Hnd).
+        destruct H as [_ HQ]. split.
+        * unfold inst_chk. rewrite Hsp. rewrite check_missing_ok.
+          2:{ intros a Hin'. rewrite Hattrs in Hin'. rewrite Forall_forall in Hpres. rewrite map_map. cbn [fst].
+              apply Hpres. exact Hin'. }
           rewrite (go_fields_ok (fun id' v' => if has_key id' (sd_attrs sd1) then check_attr_type E jctx jctx sd1 id' v'
-                                               else fail1 KUnknownAttrInLit jctx)).
-          2:{ intros kv Hin. destruct (obj_fields_ok fs s1 sdf1 sd1 jctx HQ Hf Hattrs Hgo1 kv Hin) as [Hk Hc].
-              rewrite Hk. exact Hc. }
-          cbn [band ok_true andb app andthen check_type_of_value]. rewrite Nat.eqb_refl.
-          rewrite IH by assumption. reflexivity. }
-      rewrite Helems. reflexivity.
+                                               else fail1 KUnknownAttrInLit jctx)); [reflexivity|].
+          intros kv Hin'. destruct (obj_fields_ok fs s1 sdf1 sd1 jctx HQ Hf Hattrs Hgo1 kv Hin') as [Hk Hc].
+          rewrite Hk. exact Hc.
+        * cbn [check_type_of_value prim_eqb]. apply Nat.eqb_refl.
   Qed.
 
   Theorem wf_check_literal : forall ictx jctx s j,
@@ -932,6 +961,246 @@ Section WfLiterals.
     eapply structdef_attrs_wf; eassumption.
   Qed.
 End WfLiterals.
+
+(* ------------------------------------------------------------------------------ *)
+(* Part 6: parameters, calls, statements, tasks, the program                       *)
+(* ------------------------------------------------------------------------------ *)
+Section WfStatements.
+  Variable p : program.
+  Variable HWF : WF p.
+  Variable tk : task.
+  Variable Htk : In tk (p_tasks p).
+  Variable i : nat.
+  Notation E := (visit_env p).
+  Notation T := (visit_task i tk).
+  Notation vars := (vars_of_task tk).
+
+  Lemma wf_input_param : forall ti pi k lv x t,
+    param_wt p vars lv x t -> param_access_safe E T x = true ->
+    check_input_param E T ti pi k x = ok_true.
+  Proof.
+    intros ti pi k lv x t Hw Hs. destruct x as [v|v es|s j]; cbn [check_input_param param_wt param_access_safe] in *.
+    - unfold has_key. rewrite (wf_var p HWF tk Htk i), Hw. reflexivity.
+    - eapply (wf_attribute_access p HWF tk Htk i); eassumption.
+    - destruct Hw as [-> Hw]. apply (wf_check_literal p HWF). exact Hw.
+  Qed.
+
+  Lemma wf_call_outputs : forall ti pi outs, outs_wf p outs ->
+    call_outs outs = outs /\ check_call_outputs E ti pi outs = ok_true.
+  Proof.
+    intros ti pi outs Ho. pose proof (outs_wf_call_outs p outs Ho) as Hc. split; [exact Hc|].
+    unfold check_call_outputs. rewrite Hc. apply forall_from_all_ok. intros j o Hin.
+    destruct Ho as [_ Hty]. rewrite Forall_forall in Hty. apply (wf_check_vardef p HWF). apply Hty. exact Hin.
+  Qed.
+
+  Lemma wf_call_parameters : forall ti pi lv ins outs,
+    Forall (fun x => exists t, param_wt p vars lv x t) ins -> outs_wf p outs ->
+    forallb (param_access_safe E T) ins = true ->
+    check_call_parameters E T ti pi ins outs = ok_true.
+  Proof.
+    intros ti pi lv ins outs Hins Ho Hs. unfold check_call_parameters.
+    destruct (wf_call_outputs ti pi outs Ho) as [Hc Hco].
+    assert (H1 : match ins with [] => ok_true | _ :: _ => check_call_inputs E T ti pi ins end = ok_true).
+    { destruct ins as [|x0 r0]; [reflexivity|]. unfold check_call_inputs. apply forall_from_all_ok.
+      intros k x Hin. rewrite Forall_forall in Hins. destruct (Hins x Hin) as [t Ht].
+      rewrite forallb_forall in Hs. eapply wf_input_param; [exact Ht | apply Hs; exact Hin]. }
+    rewrite H1. rewrite Hc. destruct outs; [reflexivity|]. rewrite Hco. reflexivity.
+  Qed.
+
+  Lemma wf_input_matches : forall ti pi lv x t,
+    param_wt p vars lv x t -> param_access_safe E T x = true ->
+    check_input_matches E T ti pi x t = ok_true.
+  Proof.
+    intros ti pi lv x t Hw Hs. destruct x as [v|v es|s j]; cbn [check_input_matches param_wt param_access_safe] in *.
+    - rewrite (wf_var p HWF tk Htk i), Hw, vtype_eqb_refl. reflexivity.
+    - unfold param_path_type in Hw. rewrite (wf_var p HWF tk Htk i).
+      unfold access_safe in Hs. apply andb_true_iff in Hs. destruct Hs as [Hg Hs].
+      rewrite (wf_var p HWF tk Htk i) in Hs.
+      destruct (var_type vars v) as [t0|]; [|discriminate].
+      unfold grammar_path in Hg. destruct es as [|e rest]; [discriminate|]. destruct e; try discriminate.
+      destruct (path_type_struct_head p HWF _ _ _ _ _ Hw) as (s1 & sd1 & -> & Hm).
+      cbn [struct_of_type]. rewrite (models_struct_of_prim p _ _ Hm) in *.
+      destruct (path_ipm_ok p HWF (length (PF n :: rest)) (PF n :: rest) lv _ t sd1 (PF v) (le_n _) Hw Hm eq_refl Hs)
+        as (cur & Hwalk & Hlast).
+      rewrite Hwalk. destruct Hlast as [[Hi ->] | [Hi Ha]]; rewrite Hi.
+      + unfold given_differs. rewrite vtype_eqb_refl. reflexivity.
+      + rewrite Ha. unfold given_differs. rewrite vtype_eqb_refl. reflexivity.
+    - destruct Hw as [-> _]. rewrite vtype_eqb_refl. reflexivity.
+  Qed.
+
+  Lemma wf_find_tdef : forall n callee, find_task n (p_tasks p) = Some callee ->
+    exists j, find_tdef E n = Some (visit_task j callee) /\ In callee (p_tasks p).
+  Proof.
+    intros n callee H. destruct (assoc_indexed_task _ 0 _ _ H) as [j Hj].
+    exists j. split; [|apply (find_task_in _ _ _ H)].
+    unfold find_tdef. rewrite (wf_e_tasks p HWF). exact Hj.
+  Qed.
+
+  Lemma wf_task_call : forall ti pi lv c,
+    call_wf p vars lv c -> forallb (param_access_safe E T) (c_ins c) = true ->
+    check_task_call E T ti pi c = ok_true.
+  Proof.
+    intros ti pi lv c (callee & Hf & Ho & Hl1 & Hl2 & Hins & Houts) Hs. unfold check_task_call.
+    destruct (wf_find_tdef _ _ Hf) as (j & Hfd & Hcin).
+    assert (Hk : has_key (c_name c) (e_tasks E) = true) by (unfold has_key; unfold find_tdef in Hfd; rewrite Hfd; reflexivity).
+    rewrite Hk.
+    assert (Hparams : check_call_parameters E T ti pi (c_ins c) (c_outs c) = ok_true).
+    { eapply wf_call_parameters; [|exact Ho|exact Hs].
+      apply Forall_forall. intros x Hin.
+      (* every actual has the type of its formal *)
+      assert (Hex : forall (l1 : list param) (l2 : list (name * vtype)), length l1 = length l2 ->
+                Forall (fun pf => param_wt p vars lv (fst pf) (snd (snd pf))) (combine l1 l2) ->
+                forall x, In x l1 -> exists t, param_wt p vars lv x t).
+      { induction l1 as [|a r IH]; intros l2 Hl HF x0 Hin0; [destruct Hin0|].
+        destruct l2 as [|b r2]; [discriminate|]. cbn [combine] in HF. inversion HF; subst.
+        destruct Hin0 as [<-|Hin0]; [eexists; exact H1 | eapply IH; [|exact H2|exact Hin0]; cbn in Hl; lia]. }
+      eapply Hex; [exact Hl1 | exact Hins | exact Hin]. }
+    rewrite Hparams. rewrite andthen_ok_true_l.
+    unfold check_call_matches. rewrite Hfd.
+    destruct (wf_call_outputs ti pi (c_outs c) Ho) as [Hc _].
+    unfold check_length_match. rewrite (wf_td_ins p HWF j callee Hcin). cbn [visit_task td_outs].
+    rewrite Hc, <- Hl1, <- Hl2, !Nat.eqb_refl. cbn [negb]. rewrite andthen_ok_true_l.
+    rewrite forall2_all_ok.
+    - rewrite forall2_all_ok; [reflexivity|].
+      eapply Forall_impl; [|exact Houts]. intros oo Hoo. cbn beta. unfold check_output_matches.
+      rewrite (wf_td_vars p HWF j callee _ Hcin), Hoo, vtype_eqb_refl. reflexivity.
+    - (* inputs *)
+      assert (Hall : forall (l1 : list param) (l2 : list (name * vtype)),
+                forallb (param_access_safe E T) l1 = true ->
+                Forall (fun pf => param_wt p vars lv (fst pf) (snd (snd pf))) (combine l1 l2) ->
+                Forall (fun xy => check_input_matches E T ti pi (fst xy) (snd (snd xy)) = ok_true) (combine l1 l2)).
+      { induction l1 as [|a r IH]; intros l2 Hsafe HF; [constructor|].
+        destruct l2 as [|b r2]; [constructor|]. cbn [combine] in *. inversion HF; subst.
+        cbn [forallb] in Hsafe. apply andb_true_iff in Hsafe. destruct Hsafe as [Ha Hr].
+        constructor; [|apply IH; assumption]. cbn [fst snd] in *. eapply wf_input_matches; eassumption. }
+      apply Hall; assumption.
+  Qed.
+
+  (* the statements of the task: rule by rule, under the three shape guards *)
+  Lemma wf_check_stmt : forall s lv pi,
+    stmt_wf p vars lv s ->
+    stmt_all (expr_safe E T) (param_access_safe E T) s = true ->
+    stmt_exists (string_path_checked p vars) (fun _ => false) lv s = false ->
+    check_stmt E T pi s = ok_true.
+  Proof.
+    intro s. induction s using stmt_ind'; intros lv pi Hw Hs Hg; cbn [check_stmt stmt_wf stmt_all stmt_exists] in *.
+    - destruct Hw as [Hins Ho]. eapply wf_call_parameters; eassumption.
+    - eapply wf_task_call; eassumption.
+    - destruct Hw as [_ Hw]. apply forall_from_all_ok. intros j c Hin.
+      rewrite Forall_forall in Hw. rewrite forallb_forall in Hs. eapply wf_task_call; [apply Hw; exact Hin | apply Hs; exact Hin].
+    - destruct Hw as (He & _ & Hb). apply go_wf_forall in Hb.
+      apply andb_true_iff in Hs. destruct Hs as [Hsb Hse].
+      apply orb_false_iff in Hg. destruct Hg as [Hge Hgb].
+      rewrite forall_from_all_ok.
+      + rewrite (wf_check_expression p HWF tk Htk i _ lv e TyBool He Hse Hge). reflexivity.
+      + intros j x Hin. rewrite Forall_forall in H, Hb. rewrite forallb_forall in Hsb.
+        eapply H; [exact Hin | apply Hb; exact Hin | apply Hsb; exact Hin|].
+        destruct (stmt_exists (string_path_checked p vars) (fun _ => false) lv x) eqn:Hx; [|reflexivity].
+        assert (existsb (stmt_exists (string_path_checked p vars) (fun _ => false) lv) b = true)
+          by (apply existsb_exists; eauto). congruence.
+    - destruct Hw as [_ Hw]. destruct par.
+      + destruct Hw as (c & -> & _). reflexivity.
+      + destruct Hw as [_ Hb]. apply go_wf_forall in Hb.
+        apply forall_from_all_ok. intros j x Hin. rewrite Forall_forall in H, Hb. rewrite forallb_forall in Hs.
+        eapply H; [exact Hin | apply Hb; exact Hin | apply Hs; exact Hin|].
+        destruct (stmt_exists (string_path_checked p vars) (fun _ => false) (v :: lv) x) eqn:Hx; [|reflexivity].
+        assert (existsb (stmt_exists (string_path_checked p vars) (fun _ => false) (v :: lv)) b = true)
+          by (apply existsb_exists; eauto). congruence.
+    - destruct Hw as (He & _ & Hp & Hf). apply go_wf_forall in Hp. apply go_wf_forall in Hf.
+      apply andb_true_iff in Hs. destruct Hs as [Hs Hse]. apply andb_true_iff in Hs. destruct Hs as [Hsp Hsf].
+      apply orb_false_iff in Hg. destruct Hg as [Hg Hgf]. apply orb_false_iff in Hg. destruct Hg as [Hge Hgp].
+      rewrite forall_from_all_ok; [rewrite forall_from_all_ok|].
+      + rewrite (wf_check_expression p HWF tk Htk i _ lv e TyBool He Hse Hge). reflexivity.
+      + intros j x Hin. rewrite Forall_forall in H0, Hf. rewrite forallb_forall in Hsf.
+        eapply H0; [exact Hin | apply Hf; exact Hin | apply Hsf; exact Hin|].
+        destruct (stmt_exists (string_path_checked p vars) (fun _ => false) lv x) eqn:Hx; [|reflexivity].
+        assert (existsb (stmt_exists (string_path_checked p vars) (fun _ => false) lv) f = true)
+          by (apply existsb_exists; eauto). congruence.
+      + intros j x Hin. rewrite Forall_forall in H, Hp. rewrite forallb_forall in Hsp.
+        eapply H; [exact Hin | apply Hp; exact Hin | apply Hsp; exact Hin|].
+        destruct (stmt_exists (string_path_checked p vars) (fun _ => false) lv x) eqn:Hx; [|reflexivity].
+        assert (existsb (stmt_exists (string_path_checked p vars) (fun _ => false) lv) p0 = true)
+          by (apply existsb_exists; eauto). congruence.
+  Qed.
+End WfStatements.
+
+(* the guard of C11_partial: no crash shape in guards and path parameters (D11a, D11c), no
+   string attribute in a position where only numbers and booleans are accepted and no
+   parenthesised string operand (D20) *)
+Definition c11_guard (p : program) : bool :=
+  prog_all (fun E T e => expr_safe E T e) (fun E T x => param_access_safe E T x) p
+  && negb (sh_string_eq p).
+
+Theorem wf_accepted_under_guard : forall p, WF p -> c11_guard p = true -> validate p = Ok [].
+Proof.
+  intros p HWF Hg. unfold c11_guard in Hg. apply andb_true_iff in Hg. destruct Hg as [Hsafe Hstr].
+  apply negb_true_iff in Hstr.
+  unfold validate. rewrite (wf_visit_errs_nil p HWF).
+  assert (Hvp : validate_process (visit_env p) = ok_true).
+  { unfold validate_process. rewrite (wf_check_structs p HWF).
+    assert (Htasks : forall_from (fun (_ : nat) (kv : name * tdef) => check_task (visit_env p) (snd kv)) 0
+                                 (e_tasks (visit_env p)) = ok_true).
+    { apply forall_from_all_ok. intros j kv Hin.
+      destruct (wf_check_task_io p HWF kv Hin) as [Hi Ho].
+      unfold check_task. rewrite Hi, Ho.
+      assert (Hst : check_statements (visit_env p) (snd kv) = ok_true).
+      { destruct (in_e_tasks p HWF kv Hin) as (i & tk & Htk & Heq).
+        unfold prog_all in Hsafe. rewrite forallb_forall in Hsafe. specialize (Hsafe kv Hin).
+        rewrite Heq in *. unfold task_all in Hsafe. cbn [visit_task td_body] in Hsafe.
+        unfold check_statements. cbn [visit_task td_body]. apply forall_from_all_ok. intros k s Hs.
+        pose proof HWF as HWF'. destruct HWF' as (_ & _ & _ & _ & Hts & _). rewrite Forall_forall in Hts.
+        destruct (Hts tk Htk) as (_ & _ & _ & _ & Hb & _). rewrite Forall_forall in Hb.
+        rewrite forallb_forall in Hsafe.
+        eapply (wf_check_stmt p); [assumption | exact Htk | apply Hb; exact Hs | apply Hsafe; exact Hs|].
+        destruct (stmt_exists (string_path_checked p (vars_of_task tk)) (fun _ => false) [] s) eqn:Hx; [|reflexivity].
+        exfalso. unfold sh_string_eq, tasks_exist in Hstr.
+        assert (existsb (fun t => existsb (stmt_exists (string_path_checked p (vars_of_task t)) (fun _ => false) [])
+                                          (t_body t)) (p_tasks p) = true).
+        { apply existsb_exists. exists tk. split; [exact Htk|]. apply existsb_exists. eauto. }
+        congruence. }
+      rewrite Hst. reflexivity. }
+    unfold check_tasks. rewrite Htasks. rewrite (wf_has_start_task p HWF). reflexivity. }
+  rewrite Hvp. reflexivity.
+Qed.
+
+(* the guard follows from the guards already used for C16 and the D20 shape predicate *)
+Lemma stmt_all_conj : forall (fe1 fe2 : expr -> bool) (fp1 fp2 : param -> bool) s,
+  stmt_all fe1 fp1 s = true -> stmt_all fe2 fp2 s = true ->
+  stmt_all (fun e => fe1 e && fe2 e) (fun x => fp1 x && fp2 x) s = true.
+Proof.
+  intros fe1 fe2 fp1 fp2 s. induction s using stmt_ind'; intros H1 H2; cbn [stmt_all] in *.
+  - apply forallb_forall. intros x Hin. rewrite forallb_forall in H1, H2. rewrite (H1 x Hin), (H2 x Hin). reflexivity.
+  - unfold call_all in *. apply forallb_forall. intros x Hin. rewrite forallb_forall in H1, H2.
+    rewrite (H1 x Hin), (H2 x Hin). reflexivity.
+  - apply forallb_forall. intros c Hc. rewrite forallb_forall in H1, H2. specialize (H1 c Hc). specialize (H2 c Hc).
+    unfold call_all in *. apply forallb_forall. intros x Hin. rewrite forallb_forall in H1, H2.
+    rewrite (H1 x Hin), (H2 x Hin). reflexivity.
+  - apply andb_true_iff in H1, H2. destruct H1 as [H1 H1e], H2 as [H2 H2e]. rewrite H1e, H2e, andb_true_r.
+    apply forallb_forall. intros x Hin. rewrite Forall_forall in H. rewrite forallb_forall in H1, H2. apply H; auto.
+  - destruct par; [reflexivity|].
+    apply forallb_forall. intros x Hin. rewrite Forall_forall in H. rewrite forallb_forall in H1, H2. apply H; auto.
+  - apply andb_true_iff in H1, H2. destruct H1 as [H1 H1e], H2 as [H2 H2e]. rewrite H1e, H2e, andb_true_r.
+    apply andb_true_iff in H1, H2. destruct H1 as [H1p H1f], H2 as [H2p H2f].
+    apply andb_true_iff. split.
+    + apply forallb_forall. intros x Hin. rewrite Forall_forall in H. rewrite forallb_forall in H1p, H2p. apply H; auto.
+    + apply forallb_forall. intros x Hin. rewrite Forall_forall in H0. rewrite forallb_forall in H1f, H2f. apply H0; auto.
+Qed.
+
+Lemma crash_free_c11_guard : forall p, crash_free p = true -> sh_string_eq p = false -> c11_guard p = true.
+Proof.
+  intros p Hcf Hs. unfold c11_guard. rewrite Hs, andb_true_r.
+  unfold crash_free in Hcf. apply andb_true_iff in Hcf. destruct Hcf as [Hcf _].
+  apply andb_true_iff in Hcf. destruct Hcf as [H1 H2].
+  unfold g_operands, g_access, prog_all in *. apply forallb_forall. intros kv Hin.
+  rewrite forallb_forall in H1, H2. specialize (H1 kv Hin). specialize (H2 kv Hin).
+  unfold task_all in *. apply forallb_forall. intros s Hs'.
+  rewrite forallb_forall in H1, H2.
+  exact (stmt_all_conj _ _ _ _ s (H1 s Hs') (H2 s Hs')).
+Qed.
+
+Theorem wf_accepted_crash_free : forall p,
+  WF p -> crash_free p = true -> sh_string_eq p = false -> validate p = Ok [].
+Proof. intros p HWF Hcf Hs. apply wf_accepted_under_guard; [exact HWF | apply crash_free_c11_guard; assumption]. Qed.
 
 (* full statement of C11 *)
 Definition C11_wf_accepted : Prop := forall p, WF p -> validate p = Ok [].
